@@ -7,9 +7,12 @@ from harness import gen
 from harness.framework import Suite
 
 PID = "C06"
-READY = False
 LEAN_MODS = ["SwcVerif.Props.C06"]
-THEOREMS = []
+THEOREMS = [
+    "C06.toSubTopology_spec", "C06.toSubTopology_ok_iff", "C06.attrs_preserved", "C06.subtree_nodes", "C06.propagate_marks",
+    "C06.removedSet_all", "C06.removedSet_sound", "C06.toSubtree_kept", "C06.cutEnter_removed", "C06.cutLeave_removed",
+    "C06.cutByType_kept", "C06.cutByOrder_rule", "C06.isFurcation_iff", "C06.cutShortTip_removed",
+]
 TRUSTED = ["hand-written models Model/Subtree.lean of to_sub_topology / propagate_removal / get_subtree_impl / to_subtree / cut_tree / CutByType / "
            "CutByFurcationOrder / CutShortTipBranch (tied by the c06.ops correspondence: new parents and new→old mapping compared exactly)"]
 ASSUMPTIONS = [
